@@ -191,6 +191,30 @@ def run_impl(kind, mode, shape, n, timeout=2.0):
     return res
 
 
+def run_resub(kind, shape, n, timeout=2.0):
+    """oracle only: the SAME pipeline object subscribed twice (default scheduler); the second subscription must
+    terminate the never-ending source as well -> (first outcome, second outcome, pulls of the second)"""
+    build = shapes()[shape][0]
+    ctr = Counter()
+    src = make_source(kind, ctr, None)
+    p = build(src, n)
+    outs = []
+    for _ in range(2):
+        ctr.n = 0
+        try:
+            status, _ = lib.with_timeout(timeout, lambda: p.subscribe(lambda _: None, lambda e: None, lambda: None))
+            outs.append("returned" if status == "ok" else "timeout")
+        except BudgetExceeded:
+            outs.append("exceeded")
+        except RecursionError:
+            outs.append("exceeded")
+        except Exception as e:          # noqa
+            outs.append("returned")
+        if outs[-1] != "returned":
+            break
+    return outs, min(ctr.n, BUDGET + 1)
+
+
 def gallina_case(kind, mode, shape, n):
     sh = shapes()[shape]
     run = "run_default" if MODE_CLASS[mode] == "current-thread" else "run_inline"
@@ -272,6 +296,21 @@ def run(chk):
             continue
         seen.add(sig)
         chk.violation(sig, rep, size=size)
+    # oracle only: the SAME pipeline object subscribed a second time must cancel the source as well
+    resub = 0
+    for (kind, mode, shape, n) in cases:
+        if mode != "default":
+            continue
+        outs, pulls = run_resub(kind, shape, n)
+        chk.cov["evaluations"] += 1
+        resub += 1
+        if len(outs) == 2 and outs[0] == "returned" and outs[1] != "returned":
+            chk.violation(f"C14|resubscription|{kind}|{shape}",
+                          {"resubscription": True, "source": kind, "shape": shape, "n": n, "outcomes": outs,
+                           "pulls_of_second_subscription": pulls,
+                           "what": "the first subscription of the pipeline returned, a second subscription of the "
+                                   f"same pipeline object did not return within {BUDGET} pulls"}, size=n + 1)
+    hist["resubscription_cases"] = resub
     bad, logs = lib.correspondence("C14", "corr", IMPORTS, "outcome * outcome", "model", "out_eqb", gal,
                                    shard=60, prelude=PRELUDE)
     chk.cov["traces_validated_against_impl"] = len(gal)
@@ -289,7 +328,8 @@ def run(chk):
                        "singleton, ImmediateScheduler / fresh CurrentThreadScheduler() given to subscribe or to the "
                        "source factory) x 22 shapes x parameter values (quick: one parameter value for the "
                        f"non-trampolined scheduler kinds); budget {BUDGET} pulls.  non-trivial = subscribe() returned "
-                       "after pulling at least one element")
+                       "after pulling at least one element; oracle-only: every default-scheduler catalogue entry is also "
+                       "subscribed a second time through the same pipeline object")
     chk.cov["input_distribution"] = hist
     chk.add_samples([{"source": c[0], "mode": c[1], "shape": c[2], "n": c[3]} for c in cases[::max(1, len(cases) // 6)]])
     return chk.finish(
@@ -310,6 +350,13 @@ def replay(chk, path):
         print(json.dumps(d, indent=1))
         return 1
     sys.setrecursionlimit(100000)
+    if d.get("resubscription"):
+        outs, pulls = run_resub(d["source"], d["shape"], d["n"])
+        print("resubscription case", d["source"], d["shape"], d["n"], "->", outs, pulls)
+        if len(outs) == 2 and outs[0] == "returned" and outs[1] != "returned":
+            print(f"VIOLATION property=C14 replay={path}")
+            return 1
+        return 0
     r = run_impl(d["source"], d["mode"], d["shape"], d["n"])
     print("case", d["source"], d["mode"], d["shape"], d["n"])
     print("observed", r)
